@@ -133,7 +133,17 @@ func TransformModuleFilesToModel( //nolint:funlen,gocognit,cyclop
 			rawTypeDefs = append(rawTypeDefs, typeDef)
 		}
 
-		for name, condition := range mdl.GetConditions() {
+		// iterate in name order so that the list of errors does not depend on map iteration
+		conditionNames := make([]string, 0, len(mdl.GetConditions()))
+		for name := range mdl.GetConditions() {
+			conditionNames = append(conditionNames, name)
+		}
+
+		slices.Sort(conditionNames)
+
+		for _, name := range conditionNames {
+			condition := mdl.GetConditions()[name]
+
 			if _, ok := conditions[name]; ok {
 				lineIndex := utils.GetConditionLineNumber(name, lines)
 				line, col := utils.ConstructLineAndColumnData(lines, lineIndex, name)
@@ -163,7 +173,16 @@ func TransformModuleFilesToModel( //nolint:funlen,gocognit,cyclop
 		}
 	}
 
-	for filename, typeDefs := range extendedTypeDefs {
+	// apply the extensions file by file in name order so that the outcome does not depend on map iteration
+	extendingFiles := make([]string, 0, len(extendedTypeDefs))
+	for filename := range extendedTypeDefs {
+		extendingFiles = append(extendingFiles, filename)
+	}
+
+	slices.Sort(extendingFiles)
+
+	for _, filename := range extendingFiles {
+		typeDefs := extendedTypeDefs[filename]
 		lines := moduleFiles[filename]
 
 		for _, typeDef := range typeDefs {
@@ -213,7 +232,16 @@ func TransformModuleFilesToModel( //nolint:funlen,gocognit,cyclop
 				existingRelationNames = append(existingRelationNames, name)
 			}
 
-			for name, relation := range typeDef.GetRelations() {
+			newRelationNames := make([]string, 0, len(typeDef.GetRelations()))
+			for name := range typeDef.GetRelations() {
+				newRelationNames = append(newRelationNames, name)
+			}
+
+			slices.Sort(newRelationNames)
+
+			for _, name := range newRelationNames {
+				relation := typeDef.GetRelations()[name]
+
 				if slices.Contains(existingRelationNames, name) {
 					lineIndex := utils.GetRelationLineNumber(name, lines)
 					line, col := utils.ConstructLineAndColumnData(lines, lineIndex, name)
